@@ -16,7 +16,7 @@ func zzHasMD(r *Rpc) bool { return r.Header != nil && len(r.Header.Headers) > 0 
 
 // zzCheckWire: the protocol automaton of C06 over the complete per-direction logs of one
 // connection carrying exactly one RPC with id 1 (unary or streaming).
-func zzCheckWire(c2s, s2c []*Rpc, streaming bool, handlerReturned bool, method string) {
+func zzCheckWire(c2s, s2c []*Rpc, streaming bool, handlerReturned bool, method string, cancelled bool) {
 	// every envelope: header, constant routing fields, ids
 	for _, r := range c2s {
 		vfAssert(r.Header != nil, "every-envelope-carries-a-header")
@@ -37,6 +37,11 @@ func zzCheckWire(c2s, s2c []*Rpc, streaming bool, handlerReturned bool, method s
 	}
 	clientReset := false
 	if !streaming {
+		if cancelled && len(c2s) == 0 {
+			// the call was cancelled before its request left: nothing on the wire at all
+			vfAssert(len(s2c) == 0, "no-response-without-a-request")
+			return
+		}
 		vfAssert(len(c2s) == 1 && c2s[0].Body != nil && c2s[0].Status == nil && c2s[0].Trailer == nil && c2s[0].Reset_ == nil, "unary-request-is-exactly-one-header-and-body-envelope")
 		vfAssert(len(s2c) == 1, "unary-response-is-exactly-one-envelope")
 		if len(s2c) == 1 {
@@ -212,7 +217,7 @@ func H_C06_wire() {
 		if !done {
 			return
 		}
-		zzCheckWire(ctap.written(), stap.written(), kind == 1, kind == 1 && rec.returned == 1, method)
+		zzCheckWire(ctap.written(), stap.written(), kind == 1, kind == 1 && rec.returned == 1, method, doCancel == 1)
 		vfReach("checked")
 	})
 	_ = io.EOF
